@@ -289,23 +289,43 @@ func readDeserChain(pi *PropInfo, des *ast.FuncDecl, flags map[string]bool) {
 		call, lit := mm[1], mm[4]
 		for _, m := range pi.Members {
 			if strings.Contains(lit, m.Field+": v") {
-				want := deserialiserFor(m)
-				if call != want {
-					shapeErr("%s: member %s filled by %s (expected %s)", pi.ElemStruct, m.Field, call, want)
-				}
+				pendingDeser = append(pendingDeser, pendingDeserCheck{pi.ElemStruct, m, call})
 			}
 		}
 	}
 }
 
-func deserialiserFor(m Member) string {
+// the deserialiser a member must be filled by can only be named once every vocabulary prefix is known
+type pendingDeserCheck struct {
+	elem string
+	m    Member
+	call string
+}
+
+var pendingDeser []pendingDeserCheck
+
+// checkPendingDeser runs after all types have been read: prefixes = Go prefixes of the vocabularies found.
+func checkPendingDeser(prefixes []string) {
+	for _, p := range pendingDeser {
+		want := deserialiserFor(p.m, prefixes)
+		if p.call != want {
+			shapeErr("%s: member %s filled by %s (expected %s)", p.elem, p.m.Field, p.call, want)
+		}
+	}
+}
+
+func deserialiserFor(m Member, prefixes []string) string {
 	if strings.HasPrefix(m.Kind, "T:") {
-		// T:ActivityStreamsCollection ; vocabulary prefix is one of the known ones
+		// T:ActivityStreamsCollection ; the vocabulary prefix is the longest one found among the generated types
 		t := strings.TrimPrefix(m.Kind, "T:")
-		for _, v := range []string{"ActivityStreams", "ForgeFed", "Toot", "W3IDSecurityV1"} {
-			if strings.HasPrefix(t, v) {
-				return "mgr.Deserialize" + strings.TrimPrefix(t, v) + v + "()"
+		best := ""
+		for _, v := range prefixes {
+			if strings.HasPrefix(t, v) && len(v) > len(best) {
+				best = v
 			}
+		}
+		if best != "" {
+			return "mgr.Deserialize" + strings.TrimPrefix(t, best) + best + "()"
 		}
 		return "?"
 	}
